@@ -199,15 +199,29 @@ OUT_POLY_BINARY = ["add", "subtract", "multiply", "floor_divide", "true_divide"]
 OUT_POLY_UNARY = ["negative", "positive", "square"]
 
 
-def out_pairs(numpoly, name, args, out_kind):
+def out_pairs(numpoly, name, args, out_kind, make_args=None):
     """The two function spellings called with out=<fresh buffer>; None when the call is not valid
-    without out= either."""
+    without out= either. With ``make_args`` the output is the (freshly built) first operand itself."""
     try:
         with warnings.catch_warnings():
             warnings.simplefilter("ignore")
             ref = getattr(numpoly, name)(*args)
     except Exception:  # pylint: disable=broad-except
         return None
+    if make_args is not None:
+        if not isinstance(ref, numpoly.ndpoly) or not ref.ndim:
+            return None
+
+        def alias_call(namespace):
+            def run():
+                fresh = make_args()
+                target = fresh[0]
+                result = getattr(namespace, name)(*fresh, out=target)
+                return [result, target]
+            return run
+        # the reference: what the operation gives without out= (the aliasing must not matter)
+        return [("numpy", alias_call(numpy)), ("numpoly", alias_call(numpoly)),
+                ("without out", lambda: [ref, ref])]
     if out_kind == "plain":
         if isinstance(ref, numpoly.ndpoly):
             if not ref.isconstant():
@@ -282,7 +296,18 @@ def run_operator_case(case, ctx):
             pairs.append(("method()", lambda: getattr(a, method)()))
     elif case["form"] == "out":
         facts["out_kind"] = case["out_kind"]
-        pairs = out_pairs(numpoly, kind, (a,) if b is None else (a, b), case["out_kind"])
+        make_args = None
+        if case.get("alias"):
+            facts["alias"] = True
+            ctx.count("out_alias_cases")
+
+            def make_args():
+                # (with a constant term, so that the operand has storage for every term of the
+                # result of dividing by / combining with a number)
+                first = (G.build(case["a"]) + 1).astype(float)
+                return (first,) if b is None else (first, b)
+            a = make_args()[0]
+        pairs = out_pairs(numpoly, kind, (a,) if b is None else (a, b), case["out_kind"], make_args)
         if pairs is None:
             ctx.count("skipped_out_not_applicable")
             return
@@ -309,6 +334,8 @@ def run_operator_case(case, ctx):
             ctx.violation(dict(facts, failure="raise_vs_return", pair=f"{base_label}|{label}"),
                           f"{kind}: {base_label} -> {base[1:] if base[0] == 'raised' else 'returned'}, "
                           f"{label} -> {res[1:] if res[0] == 'raised' else 'returned'}", case)
+            if case["form"] == "out":
+                continue  # the other pairs are still compared (one spelling may be a recorded finding)
             return
         if base[0] == "raised":
             continue
@@ -352,7 +379,54 @@ def gen_out_case(g, cg, kind, flavour, op=None, oshape=None):
             case["b"] = {"k": "py", "v": rng.choice([2, 4])}
         elif case["op"] in OUT_POLY_BINARY:
             case["b"] = g.poly(shape=g.compatible_shape(oshape), kind=kind)
+        if case["op"] in ("floor_divide", "true_divide", "negative", "positive") and rng.random() < 0.5:
+            # the output is the first operand itself (p /= c spelled with out=)
+            case["alias"] = True
     return case
+
+
+def after_error(ctx):
+    """A call that fails half-way (here: a callback that raises) leaves nothing behind: the next
+    call of the same function gives the same result in both spellings as if nothing had happened."""
+    import numpoly
+
+    q0, q1 = numpoly.variable(2)
+    mat = numpoly.polynomial([[q0, q1 + 1, 2], [q0 * q1, 3, q1 ** 2]])
+    case = {"form": "after_error", "op": "apply_along_axis"}
+    if not ctx.begin(case):
+        return
+
+    class Boom(Exception):
+        pass
+
+    for axis in (0, 1):
+        for namespace in (numpoly, numpy):
+            seen = []
+
+            def bad(row):
+                seen.append(1)
+                if len(seen) >= 2:
+                    raise Boom()
+                return numpoly.sum(row * 1.5)
+            try:
+                namespace.apply_along_axis(bad, axis, mat)
+            except Boom:
+                pass
+            except Exception:  # pylint: disable=broad-except
+                pass
+            results = [outcome(lambda ns=ns: ns.apply_along_axis(numpoly.sum, axis, mat))
+                       for ns in (numpoly, numpy)]
+            reference = outcome(lambda: numpoly.sum(mat, axis=axis))
+            ctx.evaluated(("after_error", "apply_along_axis", axis, namespace.__name__), True)
+            ctx.count("after_error_cases")
+            for label, res in zip(("numpoly", "numpy"), results):
+                text = "raised" if res[0] != "ok" else (compare(reference[1], res[1]) if reference[0] == "ok" else None)
+                if text:
+                    ctx.violation({"op": "apply_along_axis", "form": "after_error", "failure": "value",
+                                   "pair": "sum|" + label},
+                                  f"apply_along_axis(sum) after a call whose callback raised: "
+                                  f"{label} spelling: {text} {res[1:] if res[0] != 'ok' else ''}", case)
+    ctx.end()
 
 
 def run_operators(spec, ctx):
@@ -367,6 +441,10 @@ def run_operators(spec, ctx):
             for kind, oshape in (("int", (1, 3)), ("float", (2, 3)), ("int", (1,)), ("float", (2, 1, 2))):
                 case = gen_out_case(g, cg, kind, flavour, op, oshape)
                 ctx.run_case(case, lambda c: run_operator_case(c, ctx))
+                if flavour == "poly" and op in ("floor_divide", "true_divide", "negative", "positive"):
+                    other = dict(case, alias=not case.get("alias"))
+                    ctx.run_case(other, lambda c: run_operator_case(c, ctx))
+    after_error(ctx)
     for i in range(spec["n"]):
         form = rng.choice(["binary", "binary", "unary", "power", "division", "reduce", "reduce",
                            "accumulate", "binary_same", "binary_same", "out", "out", "out"])
